@@ -401,3 +401,10 @@ Theorem byaxis_sequence_stacks_the_axes : forall (strict : bool) (p : list (axis
   byaxis_seq strict p l = Ok (map (axis_at p) l).
 Proof. exact byaxis_seq_spec. Qed.
 Print Assumptions byaxis_sequence_stacks_the_axes.
+
+(* index lists p[[i1..ik]] (first axis): the same hull rule; FALSE "cells = selected cells"
+   for a non-contiguous list (finding C14/getitem-list-noncontiguous-cells). *)
+Theorem getitem_list_cells_refuted_for_gaps :
+  exists (p q : list (axis R)), Forall valid p /\ getitem_list p [0%Z; 2%Z] = Ok q /\
+    nthR 1 (bdry_vec (hd (mkAxis 0 0 []) q)) <> nthR 1 (bdry_vec (hd (mkAxis 0 0 []) p)).
+Proof. exact getitem_list_cells_refuted. Qed.
